@@ -338,6 +338,12 @@ open_dump(kdump_ctx_t *ctx)
 	 */
 	clear_volatile_attrs(ctx);
 
+	/* CPU notes are numbered by the running count kept in cpu.number;
+	 * do not continue where the previous dump ended.
+	 */
+	if (!isset_num_cpus(ctx))
+		ctx->shared->num_cpus.number = 0;
+
 	for (i = 0; i < ARRAY_SIZE(formats); ++i) {
 		ctx->shared->ops = formats[i];
 		ret = ctx->shared->ops->probe(ctx);
